@@ -83,7 +83,7 @@ static int manage_srcs(m_mod_t *mod, m_ctx_t *c, int flag, bool stop) {
     int ret = 0;
 
     for (int i = 0; i < M_SRC_TYPE_END; i++) {
-        m_itr_foreach(mod->srcs[i], {
+        m_itr_foreach(mod->srcs[i], M_VERIF_LOOP(mod_srcs) {
             ev_src_t *t = m_itr_get(m_itr);
             if (flag == RM && stop) {
                 if (t->type == M_SRC_TYPE_PS) {
